@@ -64,6 +64,7 @@ type Ctx struct {
 	Seed     int64
 	Deadline time.Time
 	Replay   *Replay
+	Only     string
 	Out      *Output
 	Race     bool
 	maxViol  int
@@ -77,7 +78,12 @@ func (c *Ctx) TimeUp() bool { return !c.Deadline.IsZero() && time.Now().After(c.
 func (c *Ctx) Mine(i int64) bool { return c.NShards <= 1 || int(i%int64(c.NShards)) == c.Shard }
 
 // Want reports whether scenario name should run (always, unless replaying another one).
-func (c *Ctx) Want(name string) bool { return c.Replay == nil || c.Replay.Scenario == name }
+func (c *Ctx) Want(name string) bool {
+	if c.Only != "" && c.Only != name {
+		return false
+	}
+	return c.Replay == nil || c.Replay.Scenario == name
+}
 
 func (c *Ctx) Sample(v interface{}) {
 	if len(c.Out.Samples) < 6 {
